@@ -20,7 +20,7 @@ type c20Case struct {
 }
 
 func (c *c20Case) Key() string      { return c.Variant }
-func (c *c20Case) ShardKey() string { return c.Canon }
+func (c *c20Case) ShardKey() string { return strings.TrimPrefix(c.Canon, "\x00paren:") }
 
 type meaning struct {
 	rejected  bool
